@@ -70,7 +70,10 @@ class _CrashFile:
         self._fs = fs
         self._path = path
         fs._op("open", path)
-        self._f = fs._real_open(path, mode if "b" in mode else mode + "b", buffering=0)
+        if "r" in mode and "+" in mode:
+            self._f = fs._real_open(path, "r+b", buffering=0)  # in-place edit: no truncation at open
+        else:
+            self._f = fs._real_open(path, mode if "b" in mode else mode + "b", buffering=0)
         self._text = "b" not in mode
         self._buf = bytearray()
         self.closed = False
@@ -127,6 +130,34 @@ class _CrashFile:
 
     def writable(self):
         return True
+
+    def readable(self):
+        return "+" in self.mode or "r" in self.mode
+
+    def seekable(self):
+        return True
+
+    # random access (files opened "r+b" and edited in place): like Python's BufferedRandom, pending bytes are
+    # written out before the position changes or anything is read back
+    def seek(self, offset, whence=0):
+        if not self._fs.crashed:
+            self._to_disk("seek")
+        return self._f.seek(offset, whence)
+
+    def tell(self):
+        return self._f.tell() + len(self._buf)
+
+    def read(self, n=-1):
+        if not self._fs.crashed:
+            self._to_disk("read")
+        return self._f.read() if n is None or n < 0 else self._f.read(n)
+
+    def truncate(self, size=None):
+        if self._fs.crashed:
+            raise CrashNow()
+        self._to_disk("truncate")
+        self._fs._op("truncate", self._path)
+        return self._f.truncate(size if size is not None else self._f.tell())
 
 
 class CrashFS:
